@@ -248,6 +248,26 @@ func runC08(out *vlib.Out, ops []c08Op) (string, string) {
 			}
 			sort.Strings(ids)
 			outs = append(outs, strings.TrimRight("regs "+strings.Join(ids, " "), " "))
+			// oracle: a lookup returns exactly the registrations of this phantom that were validated
+			// and not expired by a sweep since (ground truth)
+			want := map[string]bool{}
+			for key, g := range w.gt {
+				var ph, sec, tr int
+				fmt.Sscanf(key, "%d/%d/%d", &ph, &sec, &tr)
+				if ph == op.ph && g.valid {
+					want[w.ident(w.mkReg(ph, sec, tr))] = true
+				}
+			}
+			out.Checked()
+			for _, id2 := range ids {
+				if !want[id2] {
+					fail("C08:lookup-returns-unvalidated-or-forgotten", "lookup on "+phs+" returned "+id2+" which is not a validated, tracked registration")
+				}
+				delete(want, id2)
+			}
+			for id2 := range want {
+				fail("C08:lookup-misses-valid", "lookup on "+phs+" did not return the validated, tracked registration "+id2)
+			}
 		case 'e':
 			mops = append(mops, fmt.Sprintf("e,%s,%s,%d", phs, id, tr))
 			outs = append(outs, vlib.B(w.rd.RegistrationExists(d) != nil))
